@@ -83,6 +83,14 @@ def c15(q):
 
 
 def c17(q):
+    pl = _c17_emplace(q)
+    pl["jobs"].append({"sub": "pushes", "cfgs": ["debug"], "cases": 6_000 if q else 150_000, "ms": 25_000 if q else 200_000, "args": ["--engine", "hist"]})
+    pl["gates"].append("c17:pushed-compared")
+    pl["rule"] += (" 'pushes' sub-workload: portable shapes containing a FlexVec are built from their smallest value by FlexVec::push only (no emplacer for the vector) and compared with the same serialiser after every push.")
+    return pl
+
+
+def _c17_emplace(q):
     return _emplace(q, "cases = (portable shape, value, address offset 0..8). Oracle: ALIGN == 1; as_bytes()[..size()] equals a layout-agnostic reference serialiser "
                     "(tag, fields, length, elements in declaration order, fixed byte order; unused bytes of a smaller sized-enum variant are unspecified); value reads back at odd addresses. "
                     "Distinct = distinct (shape, value, offset class).",
@@ -172,13 +180,13 @@ def c11(q):
 def c12(q):
     return _hist(q, "Oracle: sequence model of a FlexVec (push success decided by a reference implementation of the documented offset chain: slot room, item extent, offset representable in L): len, is_empty, "
                     "items in order, size(), validity, re-map equality, bytes of the other items unchanged after every step, including edits inside non-last items.",
-                 ["op:flex_push:done", "op:flex_push:refused", "op:flex_pop:done", "op:flex_truncate:done", "pop-or-truncate-on-3+", "edit-inside-item"])
+                 ["op:flex_push:done", "op:flex_push:refused", "op:flex_pop:done", "op:flex_truncate:done", "pop-or-truncate-on-3+", "edit-inside-item", "refused:FlexVec:offset-not-representable"])
 
 
 def c13(q):
     return _hist(q, "Workload steered towards refusal (small buffers, fill to full, oversized slices / strings / items, offsets not representable in u8, failing nested emplacers). Oracle: after an Err (or documented panic) "
                     "the value reads the same, size() is the same, it validates, and every non-padding byte of the previous state is unchanged; the history continues and later operations are judged by the models.",
-                 ["refused:FlatVec:full", "refused:FlatString:full", "refused:FlexVec:no-room-for-item", "refused:FlexVec:no-room-for-slot", "refused:FlexVec:empty"])
+                 ["refused:FlatVec:full", "refused:FlatString:full", "refused:FlexVec:no-room-for-item", "refused:FlexVec:no-room-for-slot", "refused:FlexVec:empty", "refused:FlexVec:offset-not-representable"])
 
 
 def c14(q):
@@ -201,7 +209,7 @@ def c07(q):
                  "'threaded': two real threads over a bounded Mutex+Condvar pipe. Oracle: every send Ok, sink == concatenation of reference images (decoded), received sequence == sent sequence then Closed, "
                  "no panic, window start aligned, skip(count) <= occupied. Distinct = distinct (shape, chunk scripts, stream length); every case is non-trivial (bytes cross the pipe)."),
         "exhaustive_note": "chunk compositions are exhaustive for each small stream of the 'compose' sub-workload",
-        "gates": ["mode:blocking", "mode:threaded", "compose-cases", "messages-received", "window-observations"],
+        "gates": ["mode:blocking", "mode:threaded", "compose-cases", "messages-received", "window-observations", "non-default-buffer-capacity"],
         "jobs": [
             {"sub": "random", "cfgs": ["debug", "release"], "cases": 40_000 if q else 1_000_000, "ms": 30_000 if q else 300_000},
             {"sub": "compose", "cfgs": ["debug"], "cases": 30_000 if q else 600_000, "ms": 30_000 if q else 300_000},
